@@ -60,6 +60,16 @@ def h_one_op(ctx):
     parser, X = _parser(ctx, e)
     EXC = ctx.lib('common.exceptions')
     E = OPS.Env(e['little'], e['addr'], e['fmt'] // 8)
+    if cfg.get('refusals'):
+        # a long-running consumer: many expressions that were (rightly) refused earlier in the same process - unassigned opcodes, truncated
+        # operands, also inside nested blocks - by this parser and by another one.  A refusal must leave nothing behind.
+        other, _ = _parser(ctx, dict(e, addr=4 if e['addr'] == 8 else 8))
+        bad = [[0xfb, 1], [0x03, 1, 2], [0xa3, 2, 0x03, 1], [0xa3, 3, 0xa3, 1, 0xfc], [0x9e, 5, 1], [0x02]]
+        for i in range(cfg['refusals']):
+            try:
+                (parser if i % 3 else other).parse_expr(bad[i % len(bad)])
+            except Exception:
+                pass
     if opcode not in OPS.OPERANDS:
         # unassigned opcode: must not be accepted as something else
         tail = ctx.bytes('t', 2)
@@ -234,6 +244,8 @@ def _one_op_instances(tier):
                     if prefix and (0x30 <= opcode <= 0x8f) and opcode not in (0x30, 0x50, 0x70, 0x8f):
                         continue
                     out.append(dict(env=e, opcode=opcode, shapes=shapes, prefix=prefix))
+    base = [c for c in out if c.get('opcode') in (0x9a, 0xa3, 0x10, 0x9e) and not c.get('prefix')]
+    out += [dict(c, refusals=r) for c in base[::3] for r in (70, 300, 1100)]
     return out
 
 
